@@ -15,7 +15,7 @@ CallbackAfterAll == \A j \in DOMAIN hist : hist[j].op = "qcallback" =>
             \E c \in (i + 1)..(j - 1) : hist[c].op = "clear" /\ hist[c].k = hist[i].k /\ hist[c].h = hist[i].h
 \* ... and every handler of the snapshot that is still registered at that moment has been invoked
 CallbackAfterHandlers == [][ act'.op = "qcallback" =>
-    \A h \in {x \in snapp[act'.k] : x.id \in Ids(reg)} :
+    \A h \in {x \in snapp[act'.k] : x.id \in Ids(reg) /\ CondOK(x, tasks[act'.k].c)} :
         \E i \in DOMAIN hist : hist[i].op = "qinvoke" /\ hist[i].k = act'.k /\ hist[i].h = h.id ]_mcvars
 \* no handler of a task is invoked while an earlier handler's wait of the same task is outstanding
 NoOverlap == \A j \in DOMAIN hist : hist[j].op = "qinvoke" =>
@@ -23,4 +23,9 @@ NoOverlap == \A j \in DOMAIN hist : hist[j].op = "qinvoke" =>
             \E c \in (i + 1)..(j - 1) : hist[c].op = "clear" /\ hist[c].k = hist[i].k /\ hist[c].h = hist[i].h
 PrioOrder == \A i, j \in DOMAIN hist : (i < j /\ hist[i].op = "qinvoke" /\ hist[j].op = "qinvoke" /\ hist[i].k = hist[j].k)
                 => PrioOf(hist[i].k, hist[i].h) >= PrioOf(hist[j].k, hist[j].h) /\ hist[i].h # hist[j].h
+\* a handler is only called when its condition holds for the posted kwargs, and sees its own kwarg over the posted one
+CondRespected == \A i \in DOMAIN hist : hist[i].op = "qinvoke" =>
+    LET x == CHOOSE x \in snapp[hist[i].k] : x.id = hist[i].h
+    IN CondOK(x, tasks[hist[i].k].c) /\ hist[i].a = (IF x.hk THEN "h" ELSE "p")
+\* ... and none whose condition holds (and that stays registered) is left out: CallbackAfterHandlers
 =============================================================================
